@@ -66,11 +66,11 @@ theorem polygon_spec (box : Bound α) (outer : List (Pt α)) (holes : List (List
   polygon_spec' box outer holes
 
 /-- `clip.Bound` of two non-empty boxes is their intersection.  The non-emptiness hypotheses cannot be
-    dropped: with an EMPTY argument `clip.Bound` returns the other box (`C08N.clipBound_empty_arg`), the
-    unrestricted statement is refuted (`C08N.clipBound_is_intersection_full_false`) and `clip.Geometry` of an
-    empty Bound that passes the pre-test is the whole clip box instead of nil
-    (`C08N.geometry_bound_empty_returns_box`; finding C08-empty-bound-returns-box).  For a non-empty
-    argument "nil ⇔ no common point" is `C08N.geometry_bound_nil_iff`. -/
+    dropped: with an EMPTY argument `clip.Bound` returns the other box (`C08N.clipBound_empty_arg`; the
+    unrestricted statement is refuted, `C08N.clipBound_is_intersection_full_false`; the library's own test
+    pins this).  `clip.Geometry` no longer hands an empty Bound argument to it (orb fix, former finding
+    C08-empty-bound-returns-box): `C08N.geometry_bound_empty_nil`, and "nil ⇔ no common point" holds for
+    EVERY Bound argument: `C08N.geometry_bound_nil_iff`. -/
 theorem clipBound_is_intersection (b c : Bound α) (hb : b.isEmpty = false) (hc : c.isEmpty = false) (p : Pt α) :
     InBox (clipBound b c) p ↔ (InBox b p ∧ InBox c p) := clipBound_is_intersection' b c hb hc p
 
